@@ -492,6 +492,56 @@ func runC04(c *Ctx) {
 		}
 		c.Check(badPlain == "", "C04.R5", shortFn(idso)+": plain value => equal or suffix at a label boundary", idso.Pos(), "true implies domain == d || HasSuffix(domain, \".\"+d)", badPlain)
 		c.Check(badWild == "", "C04.R5", shortFn(idso)+": wildcard-TLD value => public-suffix conditions", idso.Pos(), "true implies tld != \"\" && icann && HasSuffix(domain, name.+tld) at a label boundary", badWild)
+		// every value of the list gets its turn: "no" is said only once the list is exhausted (a
+		// `return false` inside the scan makes the answer depend on the order the values are
+		// written in, the one thing the statement rules out)
+		{
+			badScan := ""
+			nRet := 0
+			for _, fn := range append([]*ssa.Function{idso}, newHelpersOf(c.P, idso)...) {
+				loops := loopsOf(fn)
+				eachInstr(fn, func(b *ssa.BasicBlock, in ssa.Instruction) {
+					r, ok := in.(*ssa.Return)
+					if !ok || in.Parent() != fn || len(r.Results) != 1 {
+						return
+					}
+					if fn != idso {
+						return // a helper answers for one value; the scan is in the vocabulary function
+					}
+					nRet++
+					// reached by leaving a scan early (an exit edge that does not start at the loop
+					// header), or still inside it
+					early := innermostLoop(loops, b) != nil
+					for _, l := range loops {
+						for _, ex := range l.Exits {
+							if ex[0] != l.Header && (ex[1] == b || ex[1].Dominates(b)) {
+								early = true
+							}
+						}
+					}
+					if !early {
+						return
+					}
+					// inside the scan: only "yes" may be returned from here
+					mayBeFalse := true
+					if cst, isC := r.Results[0].(*ssa.Const); isC && cst.Value != nil && cst.Value.String() == "true" {
+						mayBeFalse = false
+					}
+					if ph, isPhi := r.Results[0].(*ssa.Phi); isPhi {
+						mayBeFalse = false
+						for _, e := range ph.Edges {
+							if cst, isC := e.(*ssa.Const); !isC || cst.Value == nil || cst.Value.String() != "true" {
+								mayBeFalse = true
+							}
+						}
+					}
+					if mayBeFalse {
+						badScan = c.P.Pos(r.Pos()) + ": the scan over the list values returns before the last value was looked at, with an answer that can be \"no\": values written after this one are never examined ($domain=nas.*|nas.lan and $domain=nas.lan|nas.* differ)"
+					}
+				})
+			}
+			c.Check(badScan == "" && nRet > 0, "C04.R5", shortFn(idso)+": \"no\" only after every list value was examined", idso.Pos(), fmt.Sprintf("%d return sites; those inside the scan return true", nRet), badScan)
+		}
 	}
 
 	// ---------- R6 denyallow ----------
@@ -1036,4 +1086,15 @@ func sortedBefore(c *Ctx, fn *ssa.Function, v ssa.Value, at *ssa.BasicBlock, dep
 		}
 	})
 	return ok && n > 0
+}
+
+// newHelpersOf lists the helpers outside the vocabulary that fn reaches.
+func newHelpersOf(p *Prog, fn *ssa.Function) []*ssa.Function {
+	var out []*ssa.Function
+	for gf := range helperGroup(p, fn) {
+		if gf != fn && p.IsNewHelper(gf) {
+			out = append(out, gf)
+		}
+	}
+	return out
 }
